@@ -25,9 +25,10 @@ def cases(tier, r):
     for st in (False, True):
         for dt in (False, True):
             for mode in ("auto", "source", "destination", "column", "", "AUTO", "dest"):
-                ps.append({"x": "optpart", "st": st, "dt": dt, "mode": mode, "label": r.choice([None, "lab"])})
+                ps.append({"x": "optpart", "st": st, "dt": dt, "mode": mode, "label": r.choice([None, "lab", "", "two\nlines"])})
                 for rows, cols in ((1, 1), (1, 3), (8, 1)):
                     ps.append({"x": "optpart", "st": st, "dt": dt, "mode": mode, "label": None, "rows": rows, "cols": cols})
+                ps.append({"x": "optpart", "st": st, "dt": dt, "mode": mode, "label": ""})
     return ps
 
 
